@@ -66,9 +66,14 @@ def discards(fb):
             if l == 0:
                 continue
             ty = f.locals[l]
+            callee = c.get("f") or "<indirect>"
+            # a Result used as an iterator: `flat_map(|_| fallible())` / `result.into_iter()` yield nothing for Err — the error vanishes
+            if (callee.endswith("Iterator::flat_map") and re.search(r"flatten::FlatMap<.*?, core::result::Result<.*?(io::error::Error|Error)>", ty)) or \
+                    re.search(r"^<core::result::Result<T, E> as core::iter::traits::collect::IntoIterator>::into_iter$", callee):
+                out.append({"fn": k, "block": b, "callee": callee, "how": "Result used as an iterator: Err yields no item and is dropped", "ty": ty})
+                continue
             if not is_result_ty(ty):
                 continue
-            callee = c.get("f") or "<indirect>"
             if callee.endswith("::from_residual") or flow.is_pass_through(callee):
                 continue
             us = local_uses(f, l)
@@ -329,7 +334,7 @@ def crlf_window_sites(fb):
         calls = list(f.calls())
         if not any((c.get("f") or "").endswith(("::fill_buf", "::poll_fill_buf")) for b, c in calls):
             continue
-        mem = [(b, c) for b, c in calls if re.search(r"memchr::memchr::memchr2?$|memchr::memchr$", c.get("f") or "")
+        mem = [(b, c) for b, c in calls if re.search(r"memchr::memchr::memchr[23]?$|memchr::memchr[23]?$", c.get("f") or "")
                and any((C.op_const(a) or {}).get("v") == 10 for a in c["args"])]
         if not mem:
             continue
@@ -552,6 +557,12 @@ def fill_loop_eof_sites(fb):
                 fk2 = c2.get("f") or ""
                 if b2 in body and EMPTY_TEST_RX.search(fk2) and c2["args"] and C.op_local(c2["args"][0]) in win and c2.get("dest") and not c2["dest"][1]:
                     tests |= a10._derived_from(f, c2["dest"][0])
+            # slice patterns (`let [first, ..] = src else { break }`) test the length through PtrMetadata, not a call
+            for s_ in body:
+                for st in f.blocks[s_]["s"]:
+                    if st[0] == "=" and not st[1][1] and st[2][0] == "un" and st[2][1] == "PtrMetadata" and \
+                            any(l in win for l in R.operand_locals(st[2][2])):
+                        tests |= a10._derived_from(f, st[1][0])
             exits = []
             for s in body:
                 t = f.blocks[s]["t"]
